@@ -32,6 +32,8 @@ def case_line(spec, c):
     return c.cid + ' ' + spec.kinds[c.kind]['ser'](c.obj)
 
 def project(spec, kind, kvs):
+    if spec.normalize:
+        kvs = spec.normalize(kvs)
     keys = spec.kinds[kind].get('proj')
     if keys is None:
         return dict(kvs)
